@@ -6,7 +6,7 @@ applied to ALL dimensions.  Zero expected reports; an embedded positive
 example keeps the rule honest."""
 import ast
 
-from ..model import AnalysisError, norm_text
+from ..model import AnalysisError, norm_text, dotted
 
 
 def _targets(t):
@@ -96,4 +96,61 @@ def check(prog, res, fns, rule='X6'):
                     'to every element (e.g. one lattice size / bound for all '
                     'dimensions)' % (x.id, norm_text(lp.target),
                                      norm_text(lp.iter)[:30]))
+  return n
+
+
+# ---------------------------------------------------------------------------
+# X8 - a normalised local is not bypassed
+def check_shadowed_attributes(prog, res, fns, rule='X8'):
+  """A method that copies `self.x` into a local `x` and then re-assigns the
+  local (list -> tuple after a JSON round trip, None -> default, ...) has
+  decided that the raw attribute is not what the rest of the method should
+  use.  Passing `self.x` as an argument after that point bypasses the
+  normalisation at one site while the sibling sites use the local."""
+  n = 0
+  for fn in fns:
+    first = {}        # local name -> line of `x = ... self.x ...`
+    reassigned = set()
+    for st in ast.walk(fn.node):
+      if isinstance(st, ast.Assign) and len(st.targets) == 1 and isinstance(
+          st.targets[0], ast.Name):
+        x = st.targets[0].id
+        reads_attr = any(dotted(a) == 'self.' + x for a in ast.walk(st.value))
+        if x not in first and dotted(st.value) == 'self.' + x:
+          first[x] = st.lineno
+        elif x in first and st.lineno > first[x] and (
+            reads_attr or True):
+          reassigned.add(x)
+    for x in sorted(reassigned):
+      # statements that define the local or test the attribute to do so
+      defining = set()
+      for st in ast.walk(fn.node):
+        if isinstance(st, ast.Assign) and any(
+            isinstance(t, ast.Name) and t.id == x for t in st.targets):
+          defining.update(id(a) for a in ast.walk(st))
+        if isinstance(st, ast.If) and any(
+            isinstance(a, ast.Assign) and any(
+                isinstance(t, ast.Name) and t.id == x for t in a.targets)
+            for b in (st.body, st.orelse) for s2 in b for a in ast.walk(s2)):
+          defining.update(id(a) for a in ast.walk(st.test))
+      for c in ast.walk(fn.node):
+        if not isinstance(c, ast.Call):
+          continue
+        args = list(c.args) + [k.value for k in c.keywords]
+        for a in args:
+          if dotted(a) == 'self.' + x and id(a) not in defining and \
+              a.lineno > first[x]:
+            n += 1
+            res.violation(rule, '%s|self.%s@%s' % (
+                fn.qualname, x, norm_text(c.func)[:30]), fn.loc(a),
+                          '`self.%s` is passed to %s although the method '
+                          'normalised it into the local `%s` (line %d) and '
+                          'uses the local elsewhere: this site gets the raw '
+                          'value (a list where tuples are expected after a '
+                          'config round trip)' % (
+                              x, norm_text(c.func)[:30], x, first[x]))
+      n += 1
+      res.ok(rule, '%s|%s' % (fn.qualname, x), fn.loc(),
+             'the local `%s` shadows self.%s after its normalisation; no '
+             'call gets the raw attribute afterwards' % (x, x))
   return n
